@@ -91,13 +91,14 @@ func refPartitions(tc int, topic string, at, n int) int32 {
 		}
 		return 5
 	case TCChange:
+		// a second SetPartitions call adds to the first (b stays 4), it does not replace it
+		if topic == "b" {
+			return 4
+		}
 		if at < n/2 {
 			return 2
 		}
-		if topic == "a" {
-			return 5
-		}
-		return 3
+		return 5
 	}
 	return 32
 }
